@@ -40,6 +40,70 @@ Theorem C08_slices_agree_converse : forall fuel p sx sy bs,
   (forall e, s_slice fuel p sx sy bs = Err e <-> d_slice fuel p sx sy bs = Err e).
 Proof. exact slices_agree_converse. Qed.
 
+(* InvalidSliceYLength vs clamping: the deserialiser never raises it; the validator raises it exactly when
+   the qindex and slice_y_length fields are readable and slice_y_length exceeds the bits left in the slice
+   (8*slice_bytes - 7 - intlog2(8*slice_bytes - 7)) -- precisely the condition under which the deserialiser
+   replaces slice_y_length by that number of bits.  High quality slices never raise it. *)
+Theorem C08_bad_y_length_complementary : forall fuel p sx sy bs,
+  s_slice fuel p sx sy bs <> Err BadYLen /\
+  d_hq_slice fuel p sx sy bs <> Err BadYLen /\
+  (d_ld_slice fuel p sx sy bs = Err BadYLen <->
+   exists q bs1 syl bs2,
+     s_read_nbits 7 bs = Ok (q, bs1) /\
+     s_read_nbits (intlog2 (8 * slice_bytes (sp_st p) sx sy - 7)) bs1 = Ok (syl, bs2) /\
+     (syl >? ld_bits_left p sx sy) = true).
+Proof.
+  exact (fun fuel p sx sy bs => conj (s_slice_never_bad_length fuel p sx sy bs)
+           (conj (d_hq_slice_nb fuel p sx sy bs) (d_ld_bad_length_iff fuel p sx sy bs))).
+Qed.
+
+(* Bits after the last coefficient inside a bounded block do not affect the coefficients: if a block of the
+   validator (bits_left := len; the bands of one component / of the two colour-difference components;
+   flush_inputb) succeeds, the input splits as used ++ pad ++ rest where pad are exactly the bits_left bits
+   flushed after the last coefficient, and replacing pad (and what follows) by ANY bits of the same length
+   gives the same coefficients. *)
+Theorem padding_bits_irrelevant : forall fuel ps comp qz sx sy len bs ws rest,
+  d_comp_block fuel ps comp qz sx sy len bs = Ok (ws, rest) ->
+  exists used pad bl',
+    bs = used ++ pad ++ rest /\
+    d_comp_bands fuel ps comp qz sx sy (len, bs) = Ok (ws, (bl', pad ++ rest)) /\
+    length pad = Z.to_nat bl' /\
+    forall pad' rest', length pad' = length pad ->
+      d_comp_block fuel ps comp qz sx sy len (used ++ pad' ++ rest') = Ok (ws, rest').
+Proof. exact padding_irrelevant_comp. Qed.
+
+Theorem padding_bits_irrelevant_chroma : forall fuel ps qz sx sy len bs ws rest,
+  d_chroma_block fuel ps qz sx sy len bs = Ok (ws, rest) ->
+  exists used pad bl',
+    bs = used ++ pad ++ rest /\
+    d_chroma_bands fuel ps qz sx sy (len, bs) = Ok (ws, (bl', pad ++ rest)) /\
+    length pad = Z.to_nat bl' /\
+    forall pad' rest', length pad' = length pad ->
+      d_chroma_block fuel ps qz sx sy len (used ++ pad' ++ rest') = Ok (ws, rest').
+Proof. exact padding_irrelevant_chroma. Qed.
+
+(* fuel: S (length bits) units always suffice (the out-of-fuel result of the model is never an artefact) *)
+Theorem C08_fuel_sufficient : forall fuel p sx sy bs,
+  (length bs < fuel)%nat ->
+  d_slice fuel p sx sy bs <> Err OutOfFuel /\
+  (0 <= sp_size_scaler p -> d_slice fuel p sx sy bs <> Err BadYLen -> s_slice fuel p sx sy bs <> Err OutOfFuel).
+Proof.
+  exact (fun fuel p sx sy bs H => conj (d_slice_fuel_sufficient fuel p sx sy bs H)
+           (fun Hsc Hnb => s_slice_fuel_sufficient fuel p sx sy bs Hsc Hnb H)).
+Qed.
+
+(* a whole transform_data (coords = slice_coords) or fragment_data (coords = fragment_coords): when the
+   validator reads all the slices, the deserialiser reads them from the same bits, ends at the same position,
+   and slice by slice its dequantised coefficients are the validator's assignments.  The transform arrays
+   (and dc_prediction of them) are the same function of these assignment lists on both sides. *)
+Theorem C08_transform_data_agree : forall fuel p, 0 <= sp_size_scaler p -> forall coords bs ds rest,
+  d_slices fuel p coords bs = Ok (ds, rest) ->
+  exists ss, s_slices fuel p coords bs = Ok (ss, rest) /\
+             length ss = length coords /\
+             map (fun cs => s_dequantised p (fst (fst cs)) (snd (fst cs)) (snd cs)) (combine coords ss) = map d_writes ds /\
+             map s_qindex ss = map d_qindex ds /\ map s_lengths ss = map d_lengths ds.
+Proof. exact slices_seq_agree. Qed.
+
 (* non-vacuity: an HQ slice (8x4 luma, 4:4:4, depth 1, 2x1 slices) with a coefficient, padding bits and a
    dangling value is read by both readers; the deserialiser stores -16 raw, the validator -41 dequantised *)
 Example C08_example :
@@ -48,3 +112,12 @@ Example C08_example :
   exists d, d_slice (fuel_for bs) p 0 0 bs = Ok d /\ d_qindex d = 5 /\ d_lengths d = [1;1;0] /\ d_rest d = [] /\
             nth 1 (d_writes d) ((Str_Y, 0, LL, 0, 0), 0) = ((Str_Y, 0, LL, 0, 1), -41).
 Proof. vm_compute. eexists. repeat split; reflexivity. Qed.
+
+(* non-vacuity of the complementary case: a low-delay slice whose slice_y_length field (127) exceeds the
+   66 bits left: the validator raises InvalidSliceYLength, the deserialiser clamps and reads on *)
+Example C08_example_bad_length :
+  let p := mk_case_params [8;4;8;4;1;0;2;1;10;1;200] [0;1] [[0];[0;0;0]] in
+  let bs := bits_of_bytes [1;255;0;0;0;0;0;0;0;0] in
+  d_slice (fuel_for bs) p 0 0 bs = Err BadYLen /\
+  exists s, s_slice (fuel_for bs) p 0 0 bs = Ok s /\ s_lengths s = [127] /\ s_rest s = [].
+Proof. vm_compute. split; [reflexivity|]. eexists. repeat split; reflexivity. Qed.
